@@ -348,37 +348,48 @@ classes:
 			continue;
 
 		case GRPATM_DIGITS | GRPATM_ORDINALS:
-			/* yay, look for all digits and ordinals */
-			for (p = str; p < zp && !(*p >= '0' && *p <= '9'); p++);
-			for (const char *q = p; q < zp; q++) {
-				switch (*q) {
-				case '0' ... '9':
-					break;
-				case 't':
-					if (*++q == 'h') {
-						break;
-					}
-					goto bugger;
-				case 's':
-					if (*++q == 't') {
-						break;
-					}
-					goto bugger;
-				case 'n':
-				case 'r':
-					if (*++q == 'd') {
-						break;
-					}
-					goto bugger;
-				default:
-					goto bugger;
+			/* yay, look for all digits and ordinals, run by run */
+			for (p = str; p < zp; p++) {
+				const char *q;
+				int8_t n = f.off_min;
+
+				if (!(*p >= '0' && *p <= '9')) {
+					continue;
 				}
-				if ((--f.off_min <= 0) &&
-				    !dt_unk_p(d = dt_strpdt(p, fmt, ep))) {
-					goto found;
+				for (q = p; q < zp; q++) {
+					switch (*q) {
+					case '0' ... '9':
+						break;
+					case 't':
+						if (*++q == 'h') {
+							break;
+						}
+						goto next_run;
+					case 's':
+						if (*++q == 't') {
+							break;
+						}
+						goto next_run;
+					case 'n':
+					case 'r':
+						if (*++q == 'd') {
+							break;
+						}
+						goto next_run;
+					default:
+						goto next_run;
+					}
+					if ((--n <= 0) &&
+					    !dt_unk_p(d = dt_strpdt(p, fmt, ep))) {
+						goto found;
+					}
 				}
+			next_run:
+				/* on to the next number */
+				for (; p + 1 < zp &&
+					     p[1] >= '0' && p[1] <= '9'; p++);
 			}
-		bugger:
+			continue;
 		default:
 			continue;
 		}
